@@ -230,17 +230,28 @@ Proof. exact SolVerifyProofs.src_parseVM_eq. Qed.
    keccak256 is (in particular lib/Keccak.v's) *)
 Theorem C04_sol_source_hashes_what_the_node_signs : forall E v,
   wf v -> SolVerifyProofs.fits_memory (marshal v) -> Forall SolVerifyProofs.recid_ok (sigs v) ->
-  ExtractedSolVerify.src_parseVM E (marshal v) = Some (SolVerifyProofs.vm_of_vaa (ExtractedSolVerify.e_keccak256 E) v) /  ExtractedSolVerify.VM_hash (SolVerifyProofs.vm_of_vaa (ExtractedSolVerify.e_keccak256 E) v) = digest (ExtractedSolVerify.e_keccak256 E) v /  digest (ExtractedSolVerify.e_keccak256 E) v = ExtractedSolVerify.e_keccak256 E (ExtractedSolVerify.e_keccak256 E (body v)).
+  ExtractedSolVerify.src_parseVM E (marshal v) = Some (SolVerifyProofs.vm_of_vaa (ExtractedSolVerify.e_keccak256 E) v) /\
+  ExtractedSolVerify.VM_hash (SolVerifyProofs.vm_of_vaa (ExtractedSolVerify.e_keccak256 E) v) = digest (ExtractedSolVerify.e_keccak256 E) v /\
+  digest (ExtractedSolVerify.e_keccak256 E) v = ExtractedSolVerify.e_keccak256 E (ExtractedSolVerify.e_keccak256 E (body v)).
 Proof. intros E v W M R. repeat apply conj; [apply SolVerifyProofs.src_parseVM_marshal; assumption|reflexivity|reflexivity]. Qed.
 
 (* non-vacuity: ex_vaa (two signatures) with the Gallina Keccak-256 as the hash oracle: the hypotheses hold, the translated parseVM returns
-   C04_example_digest as vm.hash; truncated by one byte of the last fixed field, with a wrong version, or with a 65th signature byte of
-   229 (229 + 27 = 256) it reverts *)
+   C04_example_digest as vm.hash; truncated inside the last fixed field, with a wrong version, or with a 65th signature byte of 229
+   (229 + 27 = 256) it reverts — the last case is the one input class on which the contract model sol_parse alone does not *)
 Definition ex_solenv : ExtractedSolVerify.SolEnv :=
   {| ExtractedSolVerify.e_keccak256 := keccak256; ExtractedSolVerify.e_ecrecover := fun _ _ r _ => firstn 20 r;
      ExtractedSolVerify.e_getGuardianSet := fun _ => ExtractedSolVerify.zero_GuardianSet; ExtractedSolVerify.e_curidx := 3; ExtractedSolVerify.e_now := 0 |}.
 Example C04_sol_source_example :
-  wfb ex_vaa = true /\ SolVerifyProofs.fits_memory (marshal ex_vaa) /  forallb (fun s => unbe (skipn 64 (s_data s)) + 27 <? 2 ^ 8) (sigs ex_vaa) = true /  option_map ExtractedSolVerify.VM_hash (ExtractedSolVerify.src_parseVM ex_solenv (marshal ex_vaa)) = Some (digest keccak256 ex_vaa) /  option_map ExtractedSolVerify.VM_sequence (ExtractedSolVerify.src_parseVM ex_solenv (marshal ex_vaa)) = Some 42 /  option_map (fun vm => map ExtractedSolVerify.Signature_v (ExtractedSolVerify.VM_signatures vm)) (ExtractedSolVerify.src_parseVM ex_solenv (marshal ex_vaa)) = Some [44; 61] /  ExtractedSolVerify.src_parseVM ex_solenv (firstn 189 (marshal ex_vaa)) = None /  ExtractedSolVerify.src_parseVM ex_solenv (x02 :: skipn 1 (marshal ex_vaa)) = None /  ExtractedSolVerify.src_parseVM ex_solenv (firstn 71 (marshal ex_vaa) ++ xe5 :: skipn 72 (marshal ex_vaa)) = None /  SolVerifyProofs.sol_parse_vm keccak256 (firstn 71 (marshal ex_vaa) ++ xe5 :: skipn 72 (marshal ex_vaa)) = None /  sol_parse (firstn 71 (marshal ex_vaa) ++ xe5 :: skipn 72 (marshal ex_vaa)) <> None.
+  wfb ex_vaa = true /\ SolVerifyProofs.fits_memory (marshal ex_vaa) /\
+  forallb (fun s => unbe (skipn 64 (s_data s)) + 27 <? 2 ^ 8) (sigs ex_vaa) = true /\
+  option_map ExtractedSolVerify.VM_hash (ExtractedSolVerify.src_parseVM ex_solenv (marshal ex_vaa)) = Some (digest keccak256 ex_vaa) /\
+  option_map ExtractedSolVerify.VM_sequence (ExtractedSolVerify.src_parseVM ex_solenv (marshal ex_vaa)) = Some 42 /\
+  option_map (fun vm => map ExtractedSolVerify.Signature_v (ExtractedSolVerify.VM_signatures vm)) (ExtractedSolVerify.src_parseVM ex_solenv (marshal ex_vaa)) = Some [44; 61] /\
+  ExtractedSolVerify.src_parseVM ex_solenv (firstn 189 (marshal ex_vaa)) = None /\
+  ExtractedSolVerify.src_parseVM ex_solenv (x02 :: skipn 1 (marshal ex_vaa)) = None /\
+  ExtractedSolVerify.src_parseVM ex_solenv (firstn 71 (marshal ex_vaa) ++ xe5 :: skipn 72 (marshal ex_vaa)) = None /\
+  SolVerifyProofs.sol_parse_vm keccak256 (firstn 71 (marshal ex_vaa) ++ xe5 :: skipn 72 (marshal ex_vaa)) = None /\
+  sol_parse (firstn 71 (marshal ex_vaa) ++ xe5 :: skipn 72 (marshal ex_vaa)) <> None.
 Proof. vm_compute. repeat apply conj; try reflexivity. discriminate. Qed.
 
 Print Assumptions C04_body_layout.
